@@ -77,6 +77,13 @@ def geometry_runs(cols: int, rows: int) -> List[dict]:
                 for bg in (0, 1):
                     tuples.append((c, r, n, bg))
     # one run = up to 1500 passes
+    if (cols, rows) in ((16, 2), (20, 4), (8, 2), (40, 2)):
+        # texts far longer than any row (length counters beyond one byte)
+        for c in sorted({0, 3, cols - 1}):
+            for r in sorted({0, rows - 1}):
+                for n in (255, 256, 257, 256 + cols - 4, 260, 300, 512, 515):
+                    for bg in (0, 1):
+                        tuples.append((c, r, n, bg))
     runs = []
     for i in range(0, len(tuples), 1500):
         chunk = tuples[i : i + 1500]
@@ -129,6 +136,57 @@ def gen_glyphs(tier: str) -> Iterator[dict]:
                 lines = [f"lcd.glyph({slot}, {bitmap})", 'mon.write("#0")', f"lcd.glyph({(slot + 3) % 8}, {bitmap[::-1]})", 'mon.write("#1")']
                 d = decl(wiring, cols, rows, backlight=True)
                 yield {"id": f"G:{wiring}:{slot}:{off}", "space": "O", "src": common.script([d] + lines, prologue=PRO), "runs": [{"passes": 0}], "geom": [cols, rows]}
+
+
+def gen_arg_order(tier: str) -> Iterator[dict]:
+    """Every LCD call with two or more numeric arguments, each argument a call of a helper that reports on the serial
+    line when it is evaluated, the arguments written in every order Python accepts (first j positionally, the others as
+    keywords in every permutation): the firmware evaluates them in the order written (and displays the same)."""
+    defs = ["def nx(v):", "    mon.write(v)", "    return v"]
+    methods = [
+        ("progress", ["row", "value"], ["max_value", "width"], {"row": "nx(0)", "value": "nx(4)", "max_value": "nx(16)", "width": "nx(8)"}, ', style="hash"'),
+        ("write", ["col", "row", "text"], [], {"col": "nx(2)", "row": "nx(1)", "text": '"ab"'}, ""),
+        ("write", ["col", "row", "text"], ["clear_row"], {"col": "nx(2)", "row": "nx(1)", "text": '"ab"', "clear_row": "nx(0) > 1"}, ""),
+        ("line", ["row", "text"], ["clear_row"], {"row": "nx(1)", "text": "str(nx(7))", "clear_row": "nx(1) > 0"}, ""),
+        ("glyph", ["slot", "bitmap"], [], {"slot": "nx(2)", "bitmap": "[nx(1), 2, 4, 8, 16, 8, 4, 2]"}, ""),
+        ("brightness", ["level"], [], {"level": "nx(40) + nx(2)"}, ""),
+    ]
+    for wiring, cols, rows in (("parallel", 16, 2),):
+        for meth, positional, keyword_only, exprs, tail in methods:
+            shapes = []
+            for j in range(len(positional), len(positional) + 1):
+                for perm in itertools.permutations(keyword_only):
+                    shapes.append((positional, perm))
+            # keyword spellings of the positional parameters too, where the transpiler accepts them (rejection is fine: C08)
+            for perm in itertools.permutations(positional + keyword_only):
+                shapes.append(([], perm))
+            for pos, perm in shapes:
+                parts = [exprs[p] for p in pos] + [f"{p}={exprs[p]}" for p in perm]
+                lines = [f"lcd.{meth}({', '.join(parts)}{tail})", 'mon.write("#0")']
+                yield {"id": f"AO:{meth}:{len(pos)}:{','.join(perm)}", "space": "O", "src": common.script(defs + [decl(wiring, cols, rows, backlight=True)] + lines, prologue=PRO), "runs": [{"passes": 0}], "geom": [cols, rows],
+                       "reject_ok": True}
+
+
+def gen_glyph_sequences(tier: str) -> Iterator[dict]:
+    """A slot is re-defined and defined back: every sequence of length <= 3 over two bitmaps and two slots, all before the
+    loop or the last upload(s) inside it; the glyph memory must hold what the host model holds after every upload."""
+    a = [14, 31, 31, 31, 31, 31, 31, 31]
+    b = [14, 17, 17, 17, 17, 17, 17, 31]
+    uploads = [(0, a), (0, b), (1, a), (1, b)]
+    for wiring, cols, rows in (("parallel", 16, 2), ("i2c", 20, 4)):
+        for n in (2, 3):
+            for seq in itertools.product(range(len(uploads)), repeat=n):
+                for split in range(0, n + 1):
+                    if split not in (n, 1):
+                        continue
+                    lines = []
+                    for k, ui in enumerate(seq):
+                        slot, bm = uploads[ui]
+                        lines += [f"lcd.glyph({slot}, {bm})", f'mon.write("#{k}")']
+                    d = decl(wiring, cols, rows, backlight=True)
+                    setup_lines, loop_lines = lines[: 2 * split], lines[2 * split :]
+                    src = common.script([d] + setup_lines, loop_lines or None, prologue=PRO) if loop_lines else common.script([d] + setup_lines, prologue=PRO)
+                    yield {"id": f"GS:{wiring}:{seq}:{split}", "space": "O", "src": src, "runs": [{"passes": 2 if loop_lines else 0}], "geom": [cols, rows]}
 
 
 def _spellings(word: str) -> List[str]:
@@ -210,7 +268,7 @@ def progress_script(cols: int, label: Optional[str], use_width: bool) -> str:
 def gen_progress(tier: str) -> Iterator[dict]:
     maxes = list(range(1, 13)) + [100]
     for cols in ((8, 16, 20) if tier != "thorough" else (1, 5, 8, 16, 20, 40)):
-        for label in (None, "L", "A long label text"):
+        for label in (None, "", "L", "A long label text"):
             for use_width in (True, False):
                 tuples = []
                 for m in maxes:
@@ -293,6 +351,8 @@ def offrow_monitor(dr) -> Optional[str]:
 
 def judge(case, tr, dev_runs, host_runs):
     if tr.status in ("reject", "syntax"):
+        if case.get("reject_ok"):
+            return "reject", tr.error or ""
         return "violation", f"script rejected: {tr.error}"
     if tr.status != "ok":
         return "transpile_" + tr.status, tr.error or ""
@@ -329,6 +389,8 @@ def generate(tier: str, only=None) -> Iterator[dict]:
         yield from gen_two_lcds(tier)
     if not only or "Y" in only:
         yield from gen_glyphs(tier)
+        yield from gen_glyph_sequences(tier)
+        yield from gen_arg_order(tier)
         yield from gen_labels(tier)
     if not only or "G" in only:
         yield from gen_progress(tier)
